@@ -114,8 +114,8 @@ type Interp struct {
 	access       *accessLog
 	ovf          []*Term
 	unknownFeas  int
-	specDepth   int
-	specRoot    *ssa.BasicBlock
+	specDepth    int
+	specRoot     *ssa.BasicBlock
 	model        Model
 	evalSkips    int
 	merges       int
